@@ -165,7 +165,7 @@ pub fn gen_case(seed: u64, k: u64, tier: Tier) -> Case {
     }
     let lookups = Sx::L(vec![Sx::A(rid), Sx::opt(get.map(Sx::A)), Sx::b(contains), tg, tp, Sx::opt(walk_end.map(Sx::A))]);
     qs.push(Sx::L(vec![Sx::A(*id), lookups.clone()]));
-    obs.push(Sx::L(vec![lookups, Sx::b(true)]));
+    obs.push(Sx::L(vec![lookups, Sx::judge(true)]));
   }
   // specifiers()
   let mut sp = vec![];
@@ -196,7 +196,7 @@ pub fn gen_case(seed: u64, k: u64, tier: Tier) -> Case {
       deps.push(Sx::L(vec![Sx::A(it.spec(refr.as_str())), Sx::A(tid), Sx::opt(a), Sx::opt(b)]));
     }
   }
-  obs.push(Sx::L(vec![Sx::set(sp.clone()), Sx::set(deps), Sx::b(true)]));
+  obs.push(Sx::L(vec![Sx::set(sp.clone()), Sx::set(deps), Sx::judge(true)]));
   let n_red = graph.redirects.len();
   Case {
     input: Sx::L(vec![gsx, Sx::L(qs), Sx::L(sp)]),
